@@ -403,6 +403,51 @@ def bigOp (kind : String) (args : List String) : String :=
     | _, _, _, _, _, _, _ => "bad-op"
   | _ => "bad-op"
 
+/-! ### `ReadFrom` into a DIRTY receiver (ops `readinto`, `readintotab`)
+
+`readinto <chunk> <rcv> <field> <q> <omega> <logn> <dec> <coset> <precomp> <nb> <g> <custom> <vec>`: the SOURCE domain
+`NewDomain(2^logn, precomp, shift g)` is serialised with `WriteTo` and decoded by `d.ReadFrom` where `d` is NOT a fresh `Domain{}` but
+the receiver `<rcv>` = `zero` | `<logn'>:<precomp'>:<shift'|->:<n|r>` (a domain of another / the same size, default / custom shift,
+with / without tables, made by `NewDomain` (`n`) or by an earlier `ReadFrom` (`r`)). The specification is BY VALUE: the decoded
+domain is the one of the stream and nothing of the receiver's previous state survives (`readInto` ignores it). Answer: bytes read, the
+exported fields, the precompute flag, then FFT(DIF, coset), FFT(DIT, coset), FFTInverse(DIF, coset), FFTInverse(DIT, coset), FFT(DIF) of
+`<vec>` on the domain rebuilt FROM THE DECODED FIELDS. `readintotab`: instead of the transforms the state of the four table accessors
+(CosetTable, CosetTableInv, Twiddles, TwiddlesInv): `ok` (present and equal to the powers of the decoded shift / generator) or `err`. -/
+
+/-- `d.ReadFrom(r)` on a receiver whose previous state is `_prev` (any description of it): by value, the previous state is ignored -/
+def readInto {ρ : Type} (_prev : ρ) (nb q : Nat) (chunks : List (List UInt8)) : Except RdErr (DomainRec × List UInt8) :=
+  readFrom nb q chunks
+
+def recOf {q : Nat} (d : Domain (ZM q)) : DomainRec :=
+  ⟨2 ^ d.m, d.cardInv.val, d.gen.val, d.genInv.val, d.g.val, d.gInv.val, d.precomp⟩
+
+def domOf (q : Nat) (r : DomainRec) : Domain (ZM q) :=
+  { m := r.card.log2, cardInv := zm q r.cardInv, gen := zm q r.gen, genInv := zm q r.genInv, g := zm q r.g, gInv := zm q r.gInv,
+    precomp := r.precomp }
+
+/-- receiver token: `zero` | `<logn ≤ c>:<0|1>:<hex|->:<n|r>` -/
+def rcvOK (s : String) : Bool :=
+  s == "zero" ||
+  match s.splitOn ":" with
+  | [l, p, g, k] =>
+    (match parseHex l with | some l => l ≤ 12 | none => false) && (p == "0" || p == "1") &&
+    (g == "-" || (parseHex g).isSome) && (k == "n" || k == "r")
+  | _ => false
+
+def readIntoAnswer (rcv : String) (q : Nat) (kers : List Nat) (src : Domain (ZM q)) (v : List (ZM q)) (tab : Bool) : String :=
+  let nb := q.log2 / 8 + 1
+  match readInto rcv nb q [encodeDomain nb (recOf src)] with
+  | .error .eof => "err:eof"
+  | .error .range => "err:range"
+  | .ok (r, _) =>
+    let hd := " ".intercalate [toHex (8 + 5 * nb + 1), toHex r.card, toHex r.cardInv, toHex r.gen, toHex r.genInv, toHex r.g,
+      toHex r.gInv, boolStr r.precomp]
+    if tab then hd ++ (if r.precomp then " ok ok ok ok" else " err err err err") else
+    let d := domOf q r
+    if v.length != 2 ^ d.m then hd ++ " -" else
+    hd ++ " " ++ " ".intercalate [showVec (FFT kers d true true v), showVec (FFT kers d false true v),
+      showVec (FFTInverse kers d true true v), showVec (FFTInverse kers d false true v), showVec (FFT kers d true false v)]
+
 def listBEq {q : Nat} (a b : List (ZM q)) : Bool := a.map (·.val) == b.map (·.val)
 
 def handle (args : List String) : String :=
@@ -464,6 +509,10 @@ def handle (args : List String) : String :=
       | .ok (d, _) => " ".intercalate [toHex (8 + 5*nb + 1), toHex d.card, toHex d.cardInv, toHex d.gen, toHex d.genInv,
           toHex d.g, toHex d.gInv, boolStr d.precomp]
     | _, _, _ => "bad-op"
+  | "readinto" :: _chunk :: rcv :: rest =>
+    if !rcvOK rcv then "bad-op" else withArgs rest (fun q kers d _ _ v => readIntoAnswer rcv q kers d v false)
+  | "readintotab" :: _chunk :: rcv :: rest =>
+    if !rcvOK rcv then "bad-op" else withArgs rest (fun q kers d _ _ v => readIntoAnswer rcv q kers d v true)
   | "readfrom" :: _chunk :: rest => withArgs rest (fun _ kers d dif coset v =>
       -- reading is independent of how the reader chunks the bytes: same domain, same transform
       "1 " ++ showVec (FFT kers d dif coset v))
